@@ -31,10 +31,15 @@ type dialect struct {
 	table       string
 	preset      string // "", postgres, mysql, sqlite
 	presetFirst bool
+	readOpts    int // > 0: options that only concern ReadSQL (Precision, Coerce) are passed to ToSQL too - one configuration for both directions
 }
 
 func (d dialect) fns() []qsql.ConfigFunc {
 	fns := []qsql.ConfigFunc{qsql.Table(d.table)}
+	if d.readOpts > 0 {
+		// documented as read options ("rounded to when read from SQL"): writing must ignore them
+		fns = append(fns, qsql.Precision(d.readOpts))
+	}
 	switch d.preset {
 	case "postgres":
 		return append(fns, qsql.Postgres())
@@ -53,7 +58,7 @@ func (d dialect) fns() []qsql.ConfigFunc {
 }
 
 func (d dialect) String() string {
-	return fmt.Sprintf("dialect{escape=%q incrementing=%v table=%q preset=%q}", d.escape, d.incr, d.table, d.preset)
+	return fmt.Sprintf("dialect{escape=%q incrementing=%v table=%q preset=%q precision-option=%d}", d.escape, d.incr, d.table, d.preset, d.readOpts)
 }
 
 // parseInsert is a tolerant parser for INSERT INTO <table> (<cols>) VALUES (<placeholders>)[;]
@@ -202,6 +207,9 @@ func c19RoundTrip(t *rapid.T) {
 	default:
 		d.escape = rapid.SampledFrom([]rune{0, '"', '`', '"', '`', '\'', '´', '«', '“', '＂'}).Draw(t, "escape")
 		d.incr = rapid.Bool().Draw(t, "incr")
+	}
+	if rapid.IntRange(0, 3).Draw(t, "readoptsonwrite") == 0 {
+		d.readOpts = rapid.IntRange(1, 3).Draw(t, "precisiononwrite")
 	}
 	pool := simpleNames
 	if d.escape != 0 {
